@@ -4,6 +4,10 @@ TB = ("Trusted: Lean 4.33 kernel (axioms at most propext, Classical.choice, Quot
       "the hand-written model, tied to the code only by the correspondence run (differential testing of the model's executable definitions against the real crate on generated and enumerated inputs); "
       "SHA-256 as a free term algebra. ")
 TEXT = {
+    "C16": {
+        "text": "Theorems: a folder whose rows all carry the digest of their content and whose parts are present reports nothing (for every history that produced it); replacing the content of any one vault row by any different byte string, or the stored checksum of any one event record by any different value, is reported (free hash); a missing vault or log is reported. Tie: the real account_integrity on accounts from generated histories on both backends: clean run, then single-bit flips in content / checksum regions (byte offsets from the real row iterator; sqlite cells) and removals; file-system cases are replayed on the model from the bytes actually on disk.",
+        "note": TB + "Modelled rather than verified: row framing, sqlite, the concurrency/cancellation machinery of the report. External file blobs not yet covered.",
+    },
     "C11": {
         "text": "Theorems on the authorisation decision for every request and server state: for an existing account `allow` iff the header names it, the token is well formed, the access lists do not exclude it and a currently trusted key signed exactly the authenticated bytes; unsigned/malformed refused; unknown, revoked, other-bytes and other-account signatures refused; a revoked key leaves the trusted set; deny-listed / not-allow-listed accounts refused on every endpoint; decide-checked over the route table regenerated from the source: every account/event/file route calls authenticate_endpoint, and which body-carrying routes do not sign their body (finding). Tie: the finite product route x credential form x access config x before/after revocation is enumerated completely against a live in-process server on loopback; status class and server state before/after must match the model.",
         "note": TB + "Modelled rather than verified: Ed25519 (symbolic), axum extractors, TLS.",
